@@ -374,6 +374,8 @@ func idealAxioms(asserts []*Term) []*Term {
 		for i := 0; i < len(as); i++ {
 			if n, ok := knownLen(as[i]); ok {
 				out = append(out, mkEq(app("str.len", SInt, as[i]), mkInt(n)))
+			} else if name == "HMAC" || name == "SHA256" || name == "SHA1" {
+				out = append(out, mkGe(mkLen(as[i]), mkInt(1)))
 			}
 			if strings.HasPrefix(name, "b64enc_") {
 				// what the encoder produced decodes, to the same bytes
